@@ -273,6 +273,20 @@ class Table:
             var = cv.split("::")[-1]
             yes, no = Val("const", short == "eq"), Val("const", short != "eq")
             return [([("is", key, var)], yes, (), ()), ([("not", key, (var,))], no, (), ())]
+        # `?` on a value whose variant is known on this path
+        if short == "branch" and "try_trait::Try" in nm and len(args) == 1 and args[0].kind == "agg" and args[0].a[1] in ("Ok", "Err", "Some", "None"):
+            a0 = args[0]
+            CF = "core::ops::control_flow::ControlFlow"
+            if a0.a[1] in ("Ok", "Some"):
+                return [([], Val("agg", (CF, "Continue", list(a0.a[2][:1]))), (), ())]
+            return [([], Val("agg", (CF, "Break", [a0])), (), ())]
+        # the error arm of `?`: from_residual builds the Err (None) that is returned
+        if short == "from_residual" and len(args) == 1:
+            dty = str(t.get("dst_ty", ""))
+            if "Result<" in dty or dty.startswith("core::result::Result") or "anyhow" in dty:
+                return [([], Val("agg", ("core::result::Result", "Err", [args[0]])), (), ())]
+            if dty.startswith("core::option::Option"):
+                return [([], Val("agg", ("core::option::Option", "None", [])), (), ())]
         if nm in ("core::option::Option::is_some", "core::option::Option::is_none") and len(args) == 1:
             a0 = args[0]
             yes = nm.endswith("is_some")
